@@ -15,6 +15,7 @@ import TraitsVerif.Lemmas.PyLMapDict
 import TraitsVerif.Lemmas.PyLObj
 import TraitsVerif.Generated.CtorCopy
 import TraitsVerif.Model.CtorCopyAssumed
+import TraitsVerif.Lemmas.PyLCtorDict
 namespace TraitsVerif.Props.C06
 open TraitsVerif TraitsVerif.Py TraitsVerif.Model.Map
 open TraitsVerif.Py.Dict (get? contains set erase update ofPairs Op Ret WF)
@@ -534,6 +535,22 @@ theorem C06_copy_source :
     Generated.CtorCopy.traitDictCtorCopy = Model.CtorCopyAssumed.traitDictCtorCopy ∧
     Generated.CtorCopy.traitDictObjectCtorCopy = Model.CtorCopyAssumed.traitDictObjectCtorCopy := by
   first | rfl | exact ⟨rfl, rfl⟩
+
+/-- **C06_init_is_source.**  `TraitDict.__init__` as an interpreted program
+(`translate/ctorprogdict.py`, `Model/PyLCtorDict.lean`): for every argument
+(`None`, a mapping — anything with `keys`, read through `.items()` — or an
+iterable of pairs), validator and notifier arguments, running the translated
+body on the object `__new__` left gives the modelled constructor, whose contents
+are `TraitDict.init` of the chosen validators: every pair validated key first,
+then value, ordinal threaded, nothing stored if one fails, later duplicate keys
+win.  (`TraitDictObject.__init__` stays tied as statement text: `C06_init_source`.) -/
+theorem C06_init_is_source (C : Model.PyLCD.Ctx K V) (a : Model.PyLCD.Arg K V) (kv vv : Option Model.PyLC.VSrc)
+    (ns : Option Model.PyLC.NSrc) :
+    Model.PyLCD.runDictInit Generated.CtorD.traitDictInit C a kv vv ns = Model.PyLCD.dictInit C a kv vv ns ∧
+    (Model.PyLCD.dictInit C a (some .arg) (some .arg) ns).map (·.items) = TraitDict.init C.givenK C.givenV a.items := by
+  refine ⟨Lemmas.PyLCtorDict.dict_init_is_source C a kv vv ns, ?_⟩
+  simp only [Model.PyLCD.dictInit, TraitDict.init, Option.getD, Model.PyLCD.Ctx.kOf, Model.PyLCD.Ctx.vOf]
+  cases valPairs C.givenK C.givenV 0 a.items <;> rfl
 
 /-! ### Tie to the source: the mutators that exist are the mutators modelled -/
 
